@@ -22,6 +22,13 @@ Theorem C12_sort_sorted : forall l, sorted_by_name (stable_sort l).
 Proof. exact sort_sorted. Qed.
 Print Assumptions C12_sort_sorted.
 
+(* "by name" is the order of the WHATWG sort: UTF-16 code units. It is the byte order of the UTF-8 names except between a
+   supplementary character and U+E000..U+FFFF: U+1F600 (D83D DE00) sorts before U+FF5E although its UTF-8 bytes are larger *)
+Example C12_sort_is_by_code_units :
+  stable_sort [([239;189;158], [49]); ([240;159;152;128], [50]); ([97], [51])] =
+              [([97], [51]); ([240;159;152;128], [50]); ([239;189;158], [49])].
+Proof. vm_compute. reflexivity. Qed.
+
 Theorem C12_sort_stable : forall n l, filter (named n) (stable_sort l) = filter (named n) l.
 Proof. exact sort_stable. Qed.
 Print Assumptions C12_sort_stable.
